@@ -1708,6 +1708,11 @@ impl World {
 					self.oracle_on_failed(n, pi);
 				}
 			},
+			Event::PaymentPathSuccessful { payment_id, path, hold_times, .. } => {
+				if let Some(pi) = self.pay_by_id(&payment_id) {
+					self.onion_oracle_on_path_successful(n, pi, path.hops.len(), hold_times.len());
+				}
+			},
 			Event::PaymentPathFailed { payment_id, short_channel_id, payment_failed_permanently, failure, path, .. } => {
 				if let Some(pi) = payment_id.and_then(|id| self.pay_by_id(&id)) {
 					if let (lightning::events::PathFailure::OnPath { .. }, Some(h)) = (&failure, path.hops.first()) {
@@ -1992,6 +1997,11 @@ impl World {
 		let mut route_params = route_params;
 		// the route is given, not searched for: no fee budget applies
 		route_params.max_total_routing_fee_msat = None;
+		if self.nodes.len() > 10 {
+			// long lines: let the library itself work out how many hops fit into the packet instead
+			// of stopping at its default estimate of 19
+			route_params.payment_params.max_path_length = 20;
+		}
 		let route = Route { paths: route_paths, route_params };
 		if flaw == 5 {
 			// three hours pass (block timestamps are the library's clock for secret expiry)
